@@ -366,6 +366,15 @@ SetTopInst(s, n, i) ==
 SetTopInstM(s, n, i) ==
     IF ~(n \in IdsN(s)) \/ ~(i = None \/ i \in IdsI(s)) THEN Refuse(s)
     ELSE Ok([s EXCEPT !.nlTop[n] = i])
+(* netlist.set_top_instance(<Definition>, instance_name): a new instance of d, NAMED instance_name, becomes the top; *)
+(* the definition keeps its own name                                                                              *)
+SetTopDefM(s, n, d, nm) ==
+    IF ~(n \in IdsN(s)) \/ ~(d \in IdsD(s)) THEN Refuse(s)
+    ELSE LET s1 == NewI(ClearOldTop(s, n), NoVal)
+             i == NumI(s1)
+             s2 == SetReference(s1, i, d).s
+             s3 == [s2 EXCEPT !.nlTop[n] = i, !.instTop[i] = TRUE]
+         IN OkRet([s3 EXCEPT !.instData[i].name = nm], <<i>>)
 SetTopDef(s, n, d) ==
     IF ~(n \in IdsN(s)) \/ ~(d \in IdsD(s)) THEN Refuse(s)
     ELSE LET s1 == NewI(ClearOldTop(s, n), NoVal)
@@ -430,6 +439,7 @@ Apply(s, c) ==
       [] c.op = "set_top"   -> SetTopInst(s, c.n, c.i)
       [] c.op = "set_top_m" -> SetTopInstM(s, c.n, c.i)
       [] c.op = "set_top_def" -> SetTopDef(s, c.n, c.d)
+      [] c.op = "set_top_dm" -> SetTopDefM(s, c.n, c.d, c.name)
       [] c.op = "set_item"  -> SetItem(s, c.kind, c.x, c.key, c.val)
       [] c.op = "del_item"  -> DelItem(s, c.kind, c.x, c.key)
       [] c.op = "pop_item"  -> DelItem(s, c.kind, c.x, c.key)
